@@ -41,6 +41,13 @@ def prepare():
     fcntl.flock(lock, fcntl.LOCK_EX)
     t0 = time.time()
     st = {"ok": True, "errors": [], "lake_failed_modules": [], "gen_changed": []}
+    if os.environ.get("VERIF_REUSE_PREP") and os.path.exists(os.path.join(BIN, "prepare.json")):
+        # development aid for batches of checks on one frozen tree (lib/trial scripts); never used by MANIFEST commands
+        try:
+            with open(os.path.join(BIN, "prepare.json")) as f:
+                return json.load(f)
+        except Exception:
+            pass
     try:
         # 1. harness against /repo's working tree, hooks on
         modargs = []
